@@ -3768,18 +3768,21 @@ fn parse_encoded_value<R: Reader>(
         // Unsigned variants.
         constants::DW_EH_PE_absptr => input.read_address(parameters.address_size),
         constants::DW_EH_PE_uleb128 => input.read_uleb128(),
-        constants::DW_EH_PE_udata2 => input.read_u16().map(u64::from),
-        constants::DW_EH_PE_udata4 => input.read_u32().map(u64::from),
-        constants::DW_EH_PE_udata8 => input.read_u64(),
+        // The fixed size formats are read with `read_address` so that relocating
+        // readers can apply the relocations that pointers in these formats have
+        // in relocatable object files.
+        constants::DW_EH_PE_udata2 => input.read_address(2),
+        constants::DW_EH_PE_udata4 => input.read_address(4),
+        constants::DW_EH_PE_udata8 => input.read_address(8),
 
         // Signed variants. Here we sign extend the values (happens by
         // default when casting a signed integer to a larger range integer
         // in Rust), return them as u64, and rely on wrapping addition to do
         // the right thing when adding these offsets to their bases.
         constants::DW_EH_PE_sleb128 => input.read_sleb128().map(|a| a as u64),
-        constants::DW_EH_PE_sdata2 => input.read_i16().map(|a| a as u64),
-        constants::DW_EH_PE_sdata4 => input.read_i32().map(|a| a as u64),
-        constants::DW_EH_PE_sdata8 => input.read_i64().map(|a| a as u64),
+        constants::DW_EH_PE_sdata2 => input.read_address(2).map(|a| a as u16 as i16 as u64),
+        constants::DW_EH_PE_sdata4 => input.read_address(4).map(|a| a as u32 as i32 as u64),
+        constants::DW_EH_PE_sdata8 => input.read_address(8),
 
         // That was all of the valid encoding formats.
         _ => unreachable!(),
